@@ -256,7 +256,8 @@ def _kill_one(args: tuple[str, str, int]) -> dict[str, Any]:
         seen, half = _visible(url, sid)
     except Exception as e:  # noqa: BLE001
         return {"k": k, "acks": acks, "done": done, "unreadable": "%s: %s" % (type(e).__name__, str(e)[:200])}
-    return {"k": k, "acks": acks, "done": done, "seen": seen, "half": half, "stderr": p.stderr[-300:] if not acks and not done else ""}
+    return {"k": k, "acks": acks, "done": done, "seen": seen, "half": half, "stderr": p.stderr[-300:] if not acks and not done else "",
+            "stdout_done": [l for l in p.stdout.splitlines() if l.startswith("DONE")]}
 
 
 def sqlkill(chk: core.Check, max_k: int) -> None:
@@ -265,8 +266,13 @@ def sqlkill(chk: core.Check, max_k: int) -> None:
     script = os.path.join(chk.tmp, "child.py")
     with open(script, "w") as f:
         f.write(CHILD % {"root": core.REPO})
+    # one run that is never killed tells how many SQL events the script has; then one child per event
+    probe = _kill_one((script, chk.tmp, 10 ** 9))
+    n_events = next((int(l.split()[1]) for l in probe.get("stdout_done", []) if l.startswith("DONE")), None)
+    ks = list(range(1, (min(max_k, n_events) if n_events else max_k) + 1))
     with ThreadPoolExecutor(12) as ex:
-        results = list(ex.map(_kill_one, [(script, chk.tmp, k) for k in range(1, max_k + 1)]))
+        results = list(ex.map(_kill_one, [(script, chk.tmp, k) for k in ks]))
+    results.append(dict(probe, k=(n_events or max_k) + 1))
     total = None
     for r in results:
         k = r["k"]
@@ -354,8 +360,12 @@ def sqlkill_init(chk: core.Check, max_k: int) -> None:
     script = os.path.join(chk.tmp, "child_init.py")
     with open(script, "w") as f:
         f.write(CHILD_INIT % {"root": core.REPO})
+    probe = _init_kill_one((script, chk.tmp, 10 ** 9))
+    n_events = probe.get("total")
+    ks = list(range(1, (min(max_k, n_events) if n_events else max_k) + 1))
     with ThreadPoolExecutor(12) as ex:
-        results = list(ex.map(_init_kill_one, [(script, chk.tmp, k) for k in range(1, max_k + 1)]))
+        results = list(ex.map(_init_kill_one, [(script, chk.tmp, k) for k in ks]))
+    results.append(dict(probe, k=(n_events or max_k) + 1))
     total = next((r["total"] for r in results if r["done"]), None)
     for r in results:
         if total is not None and r["k"] > total:
@@ -381,15 +391,23 @@ def main(chk: core.Check) -> int:
     if not getattr(chk, "no_prove", False):
         chk.prove(["OptunaVerif.Props.C05", "OptunaVerif.Props.C05Txn"])
     quick = chk.tier == "quick"
+    import time as _t
+    t0 = _t.time()
     explore(chk, 10 if quick else 150, all_offsets=not quick)
+    chk.extra["wall_explore_s"] = round(_t.time() - t0, 1)
+    t0 = _t.time()
     try:
         sqlkill(chk, 120 if quick else 200)
     except Exception as e:  # noqa: BLE001
         chk.extra["sqlkill_error"] = str(e)[:300]
+    chk.extra["wall_sqlkill_s"] = round(_t.time() - t0, 1)
+    t0 = _t.time()
     try:
         sqlkill_init(chk, 90 if quick else 140)
     except Exception as e:  # noqa: BLE001
         chk.extra["sqlkill_init_error"] = str(e)[:300]
+    chk.extra["wall_sqlkill_init_s"] = round(_t.time() - t0, 1)
+    t0 = _t.time()
     try:
         c05_txn.check_sessions(chk)   # one transaction per RDBStorage call: shape, real BEGIN/COMMIT, kill at every SQL event
     except core.DriverBroken as e:
